@@ -466,4 +466,27 @@ def schedule (P : List Instr) (sc : List Sched) : Nat → List Nat → G → G
         | some d => if d == 0 then g else schedule P sc n (advance g rem d) g
         | none => g
 
+/-! ## the same scheduler with some children lingering: a child in `hold` has sent its message but its exit step is withheld (a
+    non-daemon thread of the callee is still running, an exit handler takes its time) — everything else moves as far as it can.
+    Used by the driver to predict behind which invocations the event loop sits frozen inside `join`, and by the negation
+    witness `join_blocks_other_tasks`. -/
+
+def lingering (hold : List Nat) (g : G) (i : Nat) : Bool :=
+  hold.contains i && (match g.invs[i]? with | some l => l.st.cpc == .sent | none => false)
+
+def scheduleH (hold : List Nat) (P : List Instr) (sc : List Sched) : Nat → List Nat → G → G
+  | 0, _, g => g
+  | n + 1, rem, g =>
+    if loopPhase P sc g != g then scheduleH hold P sc n rem (loopPhase P sc g)
+    else match (List.range g.invs.length).find? (fun i => childReady g rem i && !lingering hold g i) with
+      | some i => scheduleH hold P sc n rem (runChild i (if hold.contains i then 1 else 8) g)   -- a held child stops after its send
+      | none =>
+        match minRunning g rem with
+        | some d => if d == 0 then g else scheduleH hold P sc n (advance g rem d) g
+        | none => g
+
+/-- the invocations of `hold` whose coroutine sits in a synchronously blocking call in `g` -/
+def blockedBehind (P : List Instr) (hold : List Nat) (g : G) : List Nat :=
+  hold.filter (fun i => match g.invs[i]? with | some l => syncBlocked P l.st | none => false)
+
 end PedVerif.Subproc
